@@ -19,6 +19,10 @@ CHECKS = {
   text="Bounded symbolic model checking of the real secmet.locations / Record location helpers: every feasible path of each function is executed on unbounded symbolic integer coordinates and a symbolic record length, and z3 must answer unsat for pre /\\ path /\\ not(set-of-bases spec) on every path, plus a coverage certificate per explored subtree. Bounds: <= 3 (quick) / 4 (thorough) locations per call, <= 3 parts per location, offsets in (-n, n), extension distance <= n.",
   note="Trusted: z3, CPython int/str round trip, the Biopython ExactPosition shim (identity on symbolic ints) and SimpleLocation.__len__ shim; more than 4 locations / 3 parts, fuzzy positions and mixed-strand compounds are outside the claim.",
   ref="3/C04"),
+ "C05": dict(
+  text="Bounded symbolic model checking of create_candidates_from_protoclusters and its passes on Pn <= 3 (quick) / 4 (thorough) protoclusters (symbolic core inside symbolic extent, every sharing pattern, every supply order, linear and one origin-spanning protocluster on circular records) plus 5/7-protocluster unit layouts (hybrid pairs with identical coordinates): every protocluster in a candidate; candidate location = exact span of its members; sharing => same chemical hybrid; core overlap chain => same hybrid/interleaved candidate; extent overlap chain => some common candidate; members of each kind linked by the matching relation; singles for unabsorbed protoclusters unless identical coordinates; no duplicate (coordinates, membership); order independence.",
+  note="Set iteration order of Protocluster sets is pinned to hash(product) (other orders via renamed products). Known finding C05-1 (promotion of equal-coordinate groups into the stronger candidate) is reported as KNOWN-FINDING. Pn > 4 only through the unit layouts.",
+  ref="3/C05"),
  "C06": dict(
   text="Bounded symbolic model checking of Record.create_regions / add_region / Region.__init__ on <= 3 (quick, plus one 4-area linear class) / 4 (thorough) areas (subregions and single-protocluster candidate clusters, simple or origin-spanning) with symbolic coordinates: creation never raises, regions are pairwise disjoint, two areas share a region iff linked by a chain of overlaps (unrolled closure), each region covers exactly the union of its component, numbering follows order; plus all add/clear/create histories of length <= 3 (quick) / 4 (thorough) checked for stale parent links.",
   note="Areas are subregions or candidate clusters with one protocluster (a multi-protocluster candidate still has one span); longer histories and more areas are outside the claim.",
